@@ -245,6 +245,9 @@ func (h *header) decode(src []byte) (int, error) {
 		return total, fmt.Errorf("header/Decode: Remaining length (%d) is greater than remaining buffer (%d)", h.remlen, len(src[total:]))
 	}
 
+	// Only the bytes of this packet belong to the message, not what follows it.
+	h.dbuf = src[:total+int(h.remlen)]
+
 	return total, nil
 }
 
